@@ -44,6 +44,11 @@ type World struct {
 	// SkipResult is set when the outcome of the last call is not asserted
 	// (its effect on the contents is still modelled).
 	SkipResult bool
+	// SkipDocs is set when the contents of the returned documents are not
+	// asserted (projection outside the reference's domain; the number of
+	// documents still is); LooseDocs when they are compared as field sets
+	// (inclusion projections: the field order of the result is not asserted).
+	SkipDocs, LooseDocs bool
 }
 
 // New creates an empty world.
@@ -593,7 +598,60 @@ func (w *World) createIndex(db, coll string, s drv.IndexSpec) (string, string, b
 }
 
 // Exec runs one call on the model.
+func projected(kind string) bool {
+	switch kind {
+	case drv.Find, drv.FindOne, drv.FindOneAndUpdate, drv.FindOneAndReplace, drv.FindOneAndDelete:
+		return true
+	}
+	return false
+}
+
+// Exec applies one call to the model. A projection is validated before
+// anything else happens (an invalid one fails the call without effect, also
+// when no document is found) and applied to the returned documents.
 func (w *World) Exec(op *drv.Op) drv.Res {
+	w.SkipDocs, w.LooseDocs = false, false
+	if op.Projection == nil || !projected(op.Kind) {
+		return w.exec(op)
+	}
+	info := &ref.ProjInfo{}
+	if _, err := ref.Project(bson.D{{Key: "_id", Value: int32(0)}}, op.Projection, info); err != nil {
+		if info.OutOfDomain {
+			w.Touched = map[string]bson.D{}
+			w.ood("projection: %s", info.Why)
+			return drv.Res{}
+		}
+		w.Touched = map[string]bson.D{}
+		w.SkipResult = false
+		return errRes(err.Error(), false)
+	}
+	res := w.exec(op)
+	if res.Err != "" || w.OOD != "" {
+		return res
+	}
+	out := make([]bson.D, 0, len(res.Docs))
+	for _, d := range res.Docs {
+		info := &ref.ProjInfo{}
+		pd, err := ref.Project(d, op.Projection, info)
+		if err != nil {
+			w.ood("projection fails on a document: %s", err.Error())
+			return res
+		}
+		if info.OutOfDomain {
+			w.SkipDocs = true
+		}
+		if info.Inclusion {
+			w.LooseDocs = true
+		}
+		out = append(out, pd)
+	}
+	if res.Docs != nil {
+		res.Docs = out
+	}
+	return res
+}
+
+func (w *World) exec(op *drv.Op) drv.Res {
 	w.Touched = map[string]bson.D{}
 	w.SkipResult = false
 	if !w.inBulk {
